@@ -113,6 +113,12 @@ def shapeStr {w : Nat} : Tree w Val → String
   | .node _ p v l r =>
     "(" ++ fmtNetP p ++ (if v.isSome then "*" else "-") ++ " " ++ shapeStr l ++ " " ++ shapeStr r ++ ")"
 
+/-- the arena skeleton as read through the hook: prefix length and value presence of every node -/
+def skelStr {w : Nat} : Tree w Val → String
+  | .nil => "."
+  | .node _ p v l r =>
+    "(" ++ toString p.len ++ (if v.isSome then "*" else "-") ++ " " ++ skelStr l ++ " " ++ skelStr r ++ ")"
+
 def isPermOfRange (xs : List Nat) (n : Nat) : Bool :=
   xs.length == n && (List.range n).all (fun i => xs.contains i)
 
@@ -615,6 +621,10 @@ def step {w : Nat} (st : St w) (line : String) : Res w :=
       | "get_key_value", [p] => match P p with
         | some q => (st, fmtOpt fmtPV (m.getKeyValue q), fmtOpt fmtPV (Spec.lookup s q))
         | none => bad st
+      | "gkvs", ps => match ps.mapM P with
+        | some qs => (st, " ".intercalate (qs.map (fun q => fmtOpt fmtPV (m.getKeyValue q))),
+            " ".intercalate (qs.map (fun q => fmtOpt fmtPV (Spec.lookup s q))))
+        | none => bad st
       | "contains_key", [p] => match P p with
         | some q => (st, fmtBool (m.containsKey q), fmtBool (Spec.lookup s q).isSome)
         | none => bad st
@@ -716,6 +726,7 @@ def step {w : Nat} (st : St w) (line : String) : Res w :=
             fmtList fmtPV (items.map (·.2)), fmtList fmtPV ents)
         | _, _ => bad st
       | "shape", [] => (st, shapeStr m.root, "*")
+      | "skel", [] => (st, skelStr m.root, "*")
       | "shape_fresh", [] =>
         -- for tries modified only by insert / remove / retain / clear: the shape equals that of a
         -- map freshly built from the surviving keys (in ascending and in descending order)
